@@ -203,7 +203,7 @@ class SchedWriter(HistActor):
         att["outcome"] = "acquired"
         att["b"] = k.seq
         att["t1"] = k.time()
-        hold = [k.seq, None, None, self.name, k.time(), None, None]
+        hold = [k.seq, None, None, self.name, k.time(), None, None, a]
         self.held.append(hold)
         s.all_holds.append(hold)
         self.w = w
